@@ -257,7 +257,9 @@ namespace {
         struct Job
         {
             pika::latch* l;
+            pika::experimental::event* ev;
             std::atomic<bool>* released;
+            std::atomic<bool>* done;
         };
         std::atomic<Job*> job{nullptr};
         std::thread notifier([&] {
@@ -290,17 +292,23 @@ namespace {
                 auto t0 = clk::now();
                 while (clk::now() - t0 < 400us) {}
                 j->released->store(true);
-                j->l->count_down(1);
+                if (j->ev)
+                    j->ev->set();
+                else
+                    j->l->count_down(1);
+                j->done->store(true);    // the releaser no longer touches the primitive
             }
         });
-        int early_wait = 0, early_aw = 0, signaled = 0;
+        int early_wait = 0, early_aw = 0, early_ev = 0, signaled = 0;
         tt::sync_wait(ex::schedule(sched) | ex::then([&] {
             for (int i = 1; i <= trials; ++i)
             {
-                bool aw = (i % 2) == 0;
+                int kind = i % 3;    // 0: latch::wait, 1: latch::arrive_and_wait, 2: event::wait
+                bool aw = kind == 1;
                 pika::latch L(aw ? 2 : 1);
-                std::atomic<bool> released{false};
-                Job j{&L, &released};
+                pika::experimental::event EV;
+                std::atomic<bool> released{false}, done{false};
+                Job j{&L, kind == 2 ? &EV : nullptr, &released, &done};
                 {
                     std::unique_lock<pika::mutex> lk(m);
                     armed = i;
@@ -308,15 +316,14 @@ namespace {
                     if (st == pika::cv_status::no_timeout) ++signaled;
                 }
                 job = &j;    // the releaser counts down 400 us from now
-                if (aw)
+                if (kind == 2)
+                    EV.wait();
+                else if (aw)
                     L.arrive_and_wait(1);
                 else
                     L.wait();
-                if (!released.load()) (aw ? early_aw : early_wait)++;
-                while (!L.try_wait()) pika::this_thread::yield();
-                while (job.load() != nullptr) pika::this_thread::yield();
-                // make sure the releaser has left count_down before L dies
-                for (int k = 0; k < 3; ++k) pika::this_thread::yield();
+                if (!released.load()) (kind == 2 ? early_ev : aw ? early_aw : early_wait)++;
+                while (!done.load()) pika::this_thread::yield();    // L must outlive count_down
                 tick();
             }
         }));
@@ -326,12 +333,17 @@ namespace {
         if (early_wait)
             monitor("latch:early_return_after_timed_wait",
                 "latch::wait returned while the count was 1 in " + std::to_string(early_wait) + " of " +
-                    std::to_string(trials / 2 + trials % 2) + " trials (" + std::to_string(signaled) + " timed waits were notified)");
+                    std::to_string(trials / 3) + " trials (" + std::to_string(signaled) + " timed waits were notified)");
         if (early_aw)
             monitor("latch:early_return_after_timed_wait",
                 "latch::arrive_and_wait returned while the count was 1 in " + std::to_string(early_aw) + " of " +
-                    std::to_string(trials / 2) + " trials");
-        std::printf("STAT latch_f12 trials=%d notified=%d early_wait=%d early_aw=%d\n", trials, signaled, early_wait, early_aw);
+                    std::to_string(trials / 3) + " trials");
+        if (early_ev)
+            monitor("event:returned_before_set_after_timed_wait",
+                "event::wait returned before set() in " + std::to_string(early_ev) + " of " + std::to_string(trials / 3) +
+                    " trials in which the waiter's previous blocking call was a notified timed wait");
+        std::printf("STAT latch_f12 trials=%d notified=%d early_wait=%d early_aw=%d early_event=%d\n", trials, signaled, early_wait,
+            early_aw, early_ev);
     }
 
     // ------------------------------------------------------------------ call_once
